@@ -87,7 +87,7 @@ class ReduceToBason(_Stepper):
         else:
             self.patience_count = 0
 
-        self.last = loss
+        self.last = loss.clone()
 
         if self.patience_count >= self.patience:
             self._continual = False
